@@ -93,6 +93,15 @@ pub fn run_seed(args: &[String]) {
             add(format!("segments[{i}].begin_addr+1"), &|q| q.segments[i].begin_addr += Felt::ONE);
             add(format!("segments[{i}].stop_ptr+1"), &|q| q.segments[i].stop_ptr += Felt::ONE);
         }
+        // bounds beyond the machine word are still different numbers
+        let t64 = Felt::TWO.pow(64u64);
+        for i in 0..pi.segments.len() {
+            add(format!("segments[{i}].stop_ptr=2^64-1"), &|q| q.segments[i].stop_ptr = t64 - Felt::ONE);
+            add(format!("segments[{i}].stop_ptr=2^64+3"), &|q| q.segments[i].stop_ptr = t64 + Felt::THREE);
+            add(format!("segments[{i}].stop_ptr=2^64+7"), &|q| q.segments[i].stop_ptr = t64 + Felt::from(7));
+            add(format!("segments[{i}].begin_addr=2^200"), &|q| q.segments[i].begin_addr = Felt::TWO.pow(200u64));
+            add(format!("segments[{i}].begin_addr=2^64"), &|q| q.segments[i].begin_addr = t64);
+        }
         add("segments:drop-last".into(), &|q| { q.segments.pop(); });
         let n = pi.main_page.len();
         let idxs: Vec<usize> = (0..n).collect();
@@ -271,6 +280,7 @@ pub fn run_validate(args: &[String]) {
                         "segments+1" => pi.segments.push(SegmentInfo { begin_addr: Felt::from(5), stop_ptr: Felt::from(5) }),
                         "layoutCode+1" => pi.layout += Felt::ONE,
                         "rc:min>max" => pi.range_check_min = pi.range_check_max + Felt::ONE,
+                        "rc:min=max" => pi.range_check_min = pi.range_check_max,
                         "rc:max=limit" => pi.range_check_max = Felt::from(65535),
                         "rc:max=limit+1" => pi.range_check_max = Felt::from(65536),
                         "rc:min=-1" => pi.range_check_min = Felt::ZERO - Felt::ONE,
